@@ -214,7 +214,9 @@ pub fn gen_workspace2(rng: &mut Rng, rich: bool, max_patches: usize, allow_fail:
         tree.insert(format!("patches/{}", name).into_bytes(), Entry::File(0o644, gp.text.clone()));
         if rng.chance(12) { series.extend_from_slice(b"# a comment\n"); }
         if rng.chance(5) { series.extend_from_slice(b"\n"); }
-        let opt = match gp.p { 1 => if rng.chance(50) { "".to_string() } else { " -p1".to_string() }, p => rng.pick(&[format!(" -p{}", p), format!(" -p {}", p), format!(" --strip={}", p)]).clone() };
+        // (rarely) a strip count far beyond what any name has: every name becomes empty, the patch is refused
+        let huge = rng.chance(1);
+        let opt = if huge { rng.pick(&[" -p18446744073709551615".to_string(), " -p4000000000".to_string(), " -p 1099511627776".to_string()]).clone() } else { match gp.p { 1 => if rng.chance(50) { "".to_string() } else { " -p1".to_string() }, p => rng.pick(&[format!(" -p{}", p), format!(" -p {}", p), format!(" --strip={}", p)]).clone() } };
         series.extend_from_slice(format!("{}{}\n", name, opt).as_bytes());
         names.push(name);
     }
@@ -305,6 +307,20 @@ pub fn run<W: Write>(out: &mut W, seed: u64, n: usize, opts: &HashMap<String, St
             let mut b = Vec::new();
             for _ in 0..(1 + rng.below(8)) { b.extend_from_slice(EVIL[rng.below(EVIL.len())]); }
             ws.tree.insert(format!("patches/{}", ws.names[i]).into_bytes(), Entry::File(0o644, b));
+        }
+        if evil > 0 && rng.chance(evil / 3) {
+            // a real patch of the series whose first hunk states an extreme old line number: its lines do
+            // occur in the file, so the offset search, the failure report and the reject writer all run
+            let i = rng.below(ws.names.len());
+            let key = format!("patches/{}", ws.names[i]).into_bytes();
+            if let Some(Entry::File(m, text)) = ws.tree.get(&key).cloned() {
+                if let Some(pos) = text.windows(4).position(|w| w == b"@@ -") {
+                    let end = pos + 4 + text[pos + 4..].iter().position(|&b| b == b',' || b == b' ').unwrap_or(0);
+                    let num: &[u8] = *rng.pick(&[&b"9223372036854775807"[..], b"9223372036854775806", b"4611686018427387904", b"4294967296", b"18446744073709551615", b"9223372036854775808", b"1000000"]);
+                    let mut t = text[..pos + 4].to_vec(); t.extend_from_slice(num); t.extend_from_slice(&text[end..]);
+                    ws.tree.insert(key, Entry::File(m, t));
+                }
+            }
         }
         if rng.chance(unsafe_) {
             let i = rng.below(ws.names.len());
